@@ -95,3 +95,59 @@ func ruleSENTINELIDX(c *Ctx) {
 		c.add(rule, "count:", token.NoPos, CountDropped, true, "only %d table accesses indexed by a possibly-sentinel value found (resolveWithLookahead, explainConflict/reduceRuleInfo and the trie builder confirmed by hand)", n)
 	}
 }
+
+// SENTINEL(universe): under useTransitions the follow sets hold goto indices 0..len(follow)-1
+// plus the sentinel c.allTokensMarker == len(follow). The universe of the sparse-set builder and
+// of the bit sets derived from it must contain the sentinel: its size is 1 + len(follow). With
+// len(follow) the sentinel is one past the end and inserting it panics (only when the count is a
+// multiple of the bit-set word size does the rounding not hide it).
+func ruleSENTINELUNIVERSE(c *Ctx) {
+	const rule = "SENTINEL(universe)"
+	key := "lalr.compiler.buildLA:followSize"
+	f := c.SSAFunc("lalr", "(*compiler).buildLA")
+	if f == nil {
+		c.Lost(rule, key, "function not found")
+		return
+	}
+	marker := ""
+	for _, b := range f.Blocks {
+		for _, ins := range b.Instrs {
+			if st, ok := ins.(*ssa.Store); ok {
+				if fa, ok := st.Addr.(*ssa.FieldAddr); ok && fieldName(fa.X.Type(), fa.Field) == "allTokensMarker" {
+					marker = vpath(st.Val)
+				}
+			}
+		}
+	}
+	if marker == "" {
+		c.Lost(rule, key, "the assignment of c.allTokensMarker was not found")
+		return
+	}
+	for _, b := range f.Blocks {
+		for _, ins := range b.Instrs {
+			phi, ok := ins.(*ssa.Phi)
+			if !ok || len(phi.Edges) != 2 {
+				continue
+			}
+			var term, trans string
+			for _, e := range phi.Edges {
+				p := vpath(e)
+				if strings.HasSuffix(p, ".Terminals") {
+					term = p
+				} else {
+					trans = p
+				}
+			}
+			if term == "" || !strings.Contains(trans, marker) {
+				continue
+			}
+			if trans == "(1 + "+marker+")" || trans == "("+marker+" + 1)" {
+				c.Ok(rule, key, phi.Pos(), "under useTransitions the universe of the follow sets is %s, which contains the sentinel %s", trans, marker)
+			} else {
+				c.Bad(rule, key, phi.Pos(), "under useTransitions the universe of the follow sets is %s but the sentinel allTokensMarker is %s: the sentinel lies outside the universe and inserting it indexes past the end of the builder's arrays", trans, marker)
+			}
+			return
+		}
+	}
+	c.Lost(rule, key, "the universe size (Terminals vs. number of gotos) was not found")
+}
